@@ -28,6 +28,7 @@ import (
 	"strconv"
 	"strings"
 	"sync"
+	"sync/atomic"
 	"time"
 
 	"github.com/99designs/gqlgen/graphql"
@@ -239,7 +240,15 @@ func short(s string, n int) string {
 	return s
 }
 
+// timeouts counts requests of this child process that were never answered; termination is C05's
+// subject, so after a few of them the remaining cases are not worth another watchdog period each.
+var timeouts atomic.Int64
+
 func (pe *probeEnv) runCase(c execCase, res *result, seed int64) {
+	if timeouts.Load() >= 3 {
+		res.count("cases_skipped_after_repeated_timeouts", 1)
+		return
+	}
 	m := pe.m
 	text := c.Reps
 	var meta listMeta
@@ -278,6 +287,7 @@ func (pe *probeEnv) runCase(c execCase, res *result, seed int64) {
 	}
 	if resp.timedOut {
 		res.inconclusive(fmt.Sprintf("watchdog: %s case %d did not answer within 90s", c.Probe, c.Index))
+		timeouts.Add(1)
 		return
 	}
 	if len(resp.reqErrs) > 0 {
